@@ -30,6 +30,9 @@ var caseSem = make(chan struct{}, 12)
 func runQuery(L *Loaded, asserts []*smt.Term, gets []*smt.Term, timeout, seed int) outcome {
 	X := L.Engine.X
 	scriptMu.Lock()
+	if os.Getenv("GOVC_NOHINTS") == "" {
+		asserts = append(append([]*smt.Term{}, asserts...), X.InstantiateHints(asserts, 6)...)
+	}
 	sc := X.Script(asserts, gets, "ALL", true)
 	abs := X.ScriptAbstract(asserts)
 	scriptMu.Unlock()
